@@ -221,6 +221,62 @@ def _relative_names(rd):
     return out
 
 
+def relto_variants(origin):
+    """relativize_to values that differ from origin: its parent, a child, an unrelated name"""
+    out = []
+    if len(origin.labels) >= 2:
+        out.append(("parent", dns.name.Name(origin.labels[1:])))
+    if _wire_len(origin) + 4 <= 255:
+        out.append(("child", dns.name.Name((b"sub",) + tuple(origin.labels))))
+    out.append(("unrelated", dns.name.Name((b"unrelated", b"zz", b""))))
+    return out
+
+
+def relto_checks(ctx, c, rep, rdclass, rdtype, tname, text, origin):
+    """`from_text(text, origin, relativize=True, relativize_to=R)` with R != origin (a zone-file $ORIGIN below / above /
+    beside the zone origin): a relative name in the text is completed with `origin` and the result relativized against R.
+    Model correspondence on accept and reject, and the direct oracle: the value denotes the same absolute names as the
+    parse with relativize=False, and its own text (relative to R) parses back to it.  False = a failure was reported."""
+    if tname not in NAME_TYPES:
+        return True
+    for label, R in relto_variants(origin):
+        try:
+            ra = dns.rdata.from_text(rdclass, rdtype, text, origin=origin, relativize=True, relativize_to=R)
+        except dns.exception.DNSException:
+            ra = None
+        except Exception as e:
+            _fail(ctx, f"C05/from_text/foreign-exception/{tname}/{type(e).__name__}",
+                  f"from_text({tname}, {text!r}, origin={origin}, relativize_to={R}) raised {e!r}", rep)
+            return False
+        model_corr_fromtext(ctx, c, tname, text, origin, True, ra, R)
+        if ra is None:
+            ctx.count("relativize_to.rejected")
+            continue
+        try:
+            rb = dns.rdata.from_text(rdclass, rdtype, text, origin=origin, relativize=False)
+            wa, wb = ra.to_wire(origin=R), rb.to_wire(origin=origin)
+            ta = ra.to_text()
+            rc = dns.rdata.from_text(rdclass, rdtype, ta, origin=R, relativize=True)
+            wc = rc.to_wire(origin=R)
+        except dns.exception.DNSException:
+            ctx.count("relativize_to.skip(" + label + ")")   # NameTooLong against one of the origins, degenerate values
+            continue
+        ctx.count("relativize_to.checked(" + label + ")")
+        # relativizing replaces the matched suffix by the origin's own spelling (case): compare modulo ASCII case;
+        # the TKEY / TSIG algorithm name is read without any origin, so it is not comparable across origins
+        if tname not in ("TKEY", "TSIG") and wa.lower() != wb.lower():
+            _fail(ctx, f"C05/relativize_to/value-differs/{tname}",
+                  f"{tname}: {text!r} read with origin={origin} relativize_to={R} denotes {wa.hex()}, "
+                  f"read with relativize=False {wb.hex()}", rep)
+            return False
+        if wf_text(tname, ra) is None and wc.lower() != wa.lower():
+            _fail(ctx, f"C05/relativize_to/text-roundtrip-differs/{tname}",
+                  f"{tname}: {text!r} read with origin={origin} relativize_to={R} prints {ta!r}, which read against {R} "
+                  f"denotes {wc.hex()} instead of {wa.hex()}", rep)
+            return False
+    return True
+
+
 def trigger_class(tname, rdclass, rdtype, rd, origin, recheck):
     """recheck(rd') -> True when the same round trip succeeds on rd'"""
     if tname in CHARSTRING_FIELDS and tname != "GPOS":
@@ -335,29 +391,9 @@ def eval_rt(ctx: Ctx, c: dict):
         _fail(ctx, f"C05/text-roundtrip/{tname}/parse-fails/{trig}",
                  f"from_text({tname}, {text!r}) raised {exc_family(e)} {e!r}; value from wire {wire.hex()}", rep)
         return
-    # --- relativize_to different from origin (the zone-file situation of an $ORIGIN below the zone origin): the names are
-    # completed with `origin` and relativized against `relativize_to`; both parses denote the same absolute names
-    if porigin is not None and len(porigin.labels) >= 2:
-        parent = dns.name.Name(porigin.labels[1:])
-        try:
-            ra = dns.rdata.from_text(rdclass, rdtype, text, origin=porigin, relativize=True, relativize_to=parent)
-        except dns.exception.DNSException:
-            ra = None
-        model_corr_fromtext(ctx, c, tname, text, porigin, True, ra, parent)
-        if ra is not None and tname not in ("TKEY", "TSIG"):   # their algorithm name is read without any origin
-            try:
-                rb = dns.rdata.from_text(rdclass, rdtype, text, origin=porigin, relativize=False)
-                wa, wb = ra.to_wire(origin=parent), rb.to_wire(origin=porigin)
-            except dns.exception.DNSException:
-                ctx.count("relativize_to.skip")
-            else:
-                ctx.count("relativize_to.checked")
-                # relativizing replaces the matched suffix by the origin's own spelling (case): compare modulo ASCII case
-                if wa.lower() != wb.lower():
-                    _fail(ctx, f"C05/relativize_to/value-differs/{tname}",
-                          f"{tname}: {text!r} read with origin={porigin} relativize_to={parent} denotes {wa.hex()}, "
-                          f"read with relativize=False {wb.hex()}", rep)
-                    return
+    # --- relativize_to different from origin
+    if porigin is not None and not relto_checks(ctx, c, rep, rdclass, rdtype, tname, text, porigin):
+        return
     # --- equal record
     cmp_origin = origin if origin is not None else dns.name.root
     try:
@@ -489,12 +525,16 @@ def eval_ft(ctx: Ctx, c: dict):
     except dns.exception.DNSException as e:
         ctx.count("ft.rejected")
         model_corr_fromtext(ctx, c, tname, text, origin, rel, None)
+        if origin is not None:
+            relto_checks(ctx, c, rep, rdclass, rdtype, tname, text, origin)
         return
     except Exception as e:
         _fail(ctx, f"C05/from_text/foreign-exception/{tname}/{type(e).__name__}", f"from_text({tname}, {text!r}) raised {e!r}", rep)
         return
     ctx.count("ft.accepted")
     model_corr_fromtext(ctx, c, tname, text, origin, rel, rd)
+    if origin is not None and not relto_checks(ctx, c, rep, rdclass, rdtype, tname, text, origin):
+        return
     cmp_origin = origin if origin is not None else dns.name.root
     # accepted from text => encodable (against an origin under which the relative names of the value fit: a name that
     # from_text read against `origin` fits it by construction, but the TKEY / TSIG algorithm is read without any origin;
@@ -631,6 +671,7 @@ MODEL = {
 B64_TAIL = {"DNSKEY", "CDNSKEY", "DHCID", "OPENPGPKEY", "BRID", "HHIT", "CERT", "KEY", "RRSIG", "SIG", "IPSECKEY"}
 B64_TAIL_SKIP = {"IPSECKEY": 1}  # tokens of the tail before the base64 text (the gateway)
 NOWIRE = {"HIP", "TKEY", "TSIG", "IPSECKEY", "AMTRELAY", "APL", "WKS"}  # modelled without a wire decoder: their generic form is oracle-only
+NAME_TYPES = {"SVCB", "HTTPS"} | {t for t, (fs, tl) in MODEL.items() if any(k == "nm" for _, k in fs) or (tl is not None and tl[1] in ("nl", "gw"))}
 NOENC = {"AMTRELAY"}  # ... and without a wire encoder (to_wire: oracle only)
 B64_ONE = {"HIP": [("key", 2)], "TKEY": [("key", 5)], "TSIG": [("mac", 4), ("other", 8)]}  # base64 values read from a single token (its index)
 TXT_LIKE = {"TXT", "SPF", "AVC", "NINFO", "RESINFO", "WALLET"}
